@@ -1,3 +1,4 @@
+import XPathV.Lemmas.PullProofs
 import XPathV.Model.Api
 import XPathV.Lemmas.Facts
 /-!
@@ -48,5 +49,13 @@ theorem C04_history_independent (cfg : ECfg) (p : Plan) (h : List Op) (op : Op) 
     cases hrest : runHistory (F := F) cfg p (t ++ [op]) with
     | nil => simp [hrest] at ih
     | cons x xs => rw [hrest] at ih; simpa using ih
+
+/-- **Clone on the pull machine**: a clone is fresh, has the same configuration, does not depend on
+the state of the original, is idempotent, and yields the whole sequence -/
+theorem clone_is_fresh_and_state_independent (d : Doc) (cfg : ECfg) (cur : Ref) (q : PQ) :
+    q.clone.fresh = true ∧ q.clone.plan = q.plan ∧ q.clone.clone = q.clone ∧
+    (∀ q2 : PQ, q2.plan = q.plan → q2.clone = q.clone) ∧
+    sel (F := F) d cfg q.plan cur = .ok (rem d cfg cur q.clone) :=
+  clone_fresh d cfg cur q
 
 end XPathV.Theorems.C04
